@@ -41,7 +41,9 @@ def check(R, p, q, C, tag):
         R.fail("plan/%s" % type(ex).__name__, "raises %s: %s" % (type(ex).__name__, str(ex)[:80]), **case)
         return
     opt, duals = lp_optimum(p, q, C)
-    R.case(key, nontrivial=len(p) > 1 and len(q) > 1, sample=dict(case, plan=np.round(plan, 6).tolist()) if len(p) == 2 and len(q) == 3 else None)
+    if len(p) > 30:
+        case = dict(p="dirichlet(%d) seed-dependent" % len(p), q="dirichlet(%d)" % len(q), cost="uniform random %dx%d" % C.shape, n=len(p), m=len(q))
+    R.case(key if len(p) <= 30 else (tag, len(p), len(q)), nontrivial=len(p) > 1 and len(q) > 1, sample=dict(case, plan=np.round(plan, 6).tolist()) if len(p) == 2 and len(q) == 3 else None)
     if plan.shape != C.shape:
         R.fail("plan/shape", "plan shape %r for cost %r" % (plan.shape, C.shape), **case)
         return
@@ -95,6 +97,11 @@ def run(tier, seed):
                 else:
                     C = np.ones((n, m))
                 check(R, p, q, C, "grid")
+    # sizes up to the default max_distribution_size (256): the pivot count of the network simplex grows with the size, so any
+    # cap / shortcut in the solver shows only here
+    for (n, m) in ([(160, 160), (256, 200)] if tier == "quick" else [(160, 160), (256, 256), (200, 256), (256, 30), (120, 240)]):
+        p, q = nprng.dirichlet(np.ones(n)), nprng.dirichlet(np.ones(m))
+        check(R, p, q, nprng.rand(n, m), "large")
     if tier != "quick":
         for _ in range(60):
             n, m = rng.randint(6, 25), rng.randint(6, 25)
@@ -105,5 +112,7 @@ def run(tier, seed):
 
 def replay(case):
     R = Recorder("replay")
+    if "n" in case:
+        return not any(f["id"] == case["id"] for f in run("quick", 0)["failures"])
     check(R, case["p"], case["q"], case["cost"], "replay")
     return not any(f["id"] == case["id"] for f in R.failures)
